@@ -9,6 +9,7 @@ Import ListNotations.
 
 Definition k_save := 30%N.
 Definition k_own := 31%N.
+Definition k_edit := 32%N.   (* an edit applied to the document and its twin alike *)
 
 (* kind, classes changed by the first run, by the second run, repeat equal, same as twin *)
 Definition step := (N * list N * list N * bool * bool)%type.
@@ -18,6 +19,7 @@ Definition subset (xs ys : list N) : bool := forallb (fun x => in_classes x ys) 
 Definition step_ok (s : step) : bool :=
   let '(k, ch1, ch2, rep, twin) := s in
   if N.eqb k k_save then twin
+  else if N.eqb k k_edit then true
   else if N.eqb k k_own then rep && subset ch1 [] && subset ch2 []
   else subset ch1 (declared k) && subset ch2 (declared k)
        && forallb hidden_class ch1 && forallb hidden_class ch2 && rep && twin.
